@@ -13,4 +13,15 @@ PROPERTY = dict(
 OBLIGATIONS = [
     dict(EXT, name='S2.signature', stubs=EXT['stubs'] + HASH_STUBS, noinline=['ExternalCommand12getSignature'], expect_functions=['ExternalCommand12getSignature'], params_quick=[dict(VF_CASE=3, VF_AI=a, VF_AO=b, VF_BI=c, VF_BO=d) for (a, b, c, d) in ((1, 1, 1, 1), (2, 1, 1, 2), (1, 0, 0, 1), (2, 2, 2, 2), (0, 2, 1, 1))],
          params_thorough=[dict(VF_CASE=3, VF_AI=a, VF_AO=b, VF_BI=c, VF_BO=d) for a in range(3) for b in range(3) for c in range(3) for d in range(3) if (a, b) <= (c, d)], unwind=8, unwind_loops=[('intern', 20)], timeout=900),
+    # the shell command's own attributes (args, env, deps settings, flags, explicit signature) on top of the ExternalCommand part
+    dict(EXT, name='S3.shell-signature', harness='bs/h_shellsig.cpp', entry='harness_shellsig', tus=EXT['tus'] + ['lib/BuildSystem/ShellCommand.cpp'],
+         stubs=HASH_STUBS, stub_virtual=EXT['stub_virtual'] + ['ShellCommand(?!12getSignature)'],
+         noinline=['ShellCommand12getSignature'], expect_functions=['ShellCommand12getSignature', 'ExternalCommand12getSignature'],
+         params_quick=[dict(VF_NA=0, VF_NE=0, VF_NP=0), dict(VF_NA=1, VF_NE=0, VF_NP=0)],
+         params_thorough=[dict(VF_NA=a, VF_NE=0, VF_NP=0) for a in range(3)],
+         unwind=8, unwind_loops=[('intern', 50)], timeout=600),
+]
+DISABLED = [
+    # no verdict in 900 s each (std::string / SmallVector construction of the environment, the dependency-file paths and the explicit signature)
+    dict(OBLIGATIONS[1], name='S3x.shell-signature-lists', params_quick=[dict(VF_NA=1, VF_NE=1, VF_NP=1), dict(VF_NA=1, VF_NE=0, VF_NP=0, VF_SIGDATA=1)]),
 ]
